@@ -200,6 +200,17 @@ func scenario(c *vk.Ctx, i int) {
 		l.LogonExtra = []fixref.Field{fixref.F("141", "Y")} // the peer asks for a sequence reset (ResetSeqNumFlag)
 		c.Count("sessions_whose_peer_logon_carries_ResetSeqNumFlag", 1)
 	}
+	refusedFirst := role == rig.Acceptor && (i/8)%2 == 1
+	if refusedFirst {
+		// the peer's first Logon is refused (interval above the limit): the Reject is the session's first message and
+		// already carries the identifiers mirrored from that Logon
+		l.Conn.Feed(l.Peer.Logon(1000, "0"))
+		if !l.WaitFrames(3*time.Second, func(fs []rig.Frame) bool { return len(fs) >= 1 }) {
+			c.Inconclusive("no answer to the refused Logon: " + desc)
+			return
+		}
+		c.Count("sessions_whose_first_logon_was_refused", 1)
+	}
 	if !l.Logon(role, 1, 5*time.Second) {
 		c.Inconclusive("logon did not complete: " + desc)
 		return
@@ -276,7 +287,7 @@ func scenario(c *vk.Ctx, i int) {
 	if len(rest) != 0 {
 		c.Violate("C05/partial-message-on-wire", desc+": trailing bytes that are not a whole message", replay)
 	}
-	sig, switches := checkWire(c, desc, frames, c0, role, false, replay)
+	sig, switches := checkWire(c, desc, frames, c0, role, refusedFirst, replay)
 	// application sends: sending time within [call, return]
 	bySeq := map[int]rig.Frame{}
 	for _, fr := range frames {
@@ -394,7 +405,7 @@ func main() {
 	// one GOMAXPROCS setting per shard
 	gmp := []int{16, 1, 2}[c.Shard%3]
 	runtime.GOMAXPROCS(gmp)
-	c.Rule("session i: either role on the full stack (real Initiator.Serve / Acceptor.ListenAndServe goroutines on a scripted net.Conn), logon by the scripted peer with N=1 (every third group of four: its Logon carries ResetSeqNumFlag=Y; numbering must then still be consecutive from the session's first message, from 1 if the session itself announces a reset), then G in {1,2,4,8,16} goroutines x M in 3..16 application sends (a fresh message object per send, or in every second pair of scenarios one object per goroutine sent M times) in bursts spread over 2.6 s (so that heartbeat and test-request timers expire in between), while the peer injects TestRequests and damaged messages (replies and rejects originate on the inbound goroutine) or stays silent; handler buffer {0,1,10}; the peer reads instantly or takes 100/300 us per message (so that bursts fill the buffer); a store decorator sleeps 0..2 ms after the counter increment, inside Save and in an outgoing handler; one GOMAXPROCS value per shard {16,1,2}; optional second session on the same counter store (in half of those the second session goes on sending for 2.6 s after the first connection was lost). Oracle on the peer-side capture (reference splitter): 34 = c0+1,c0+2,... in wire order; 49/56; 52 parses, never goes backwards along the wire, is not later than the write, lies within [call,return] of its Send; porcupine counter model over the Send operations. distinct = (role, interleaving signature of source kinds on the wire, G, M, buffer); non-trivial = at least 2 source kinds on the wire")
+	c.Rule("session i: either role on the full stack (real Initiator.Serve / Acceptor.ListenAndServe goroutines on a scripted net.Conn), logon by the scripted peer with N=1 (in half of the acceptor groups preceded by a Logon that is refused: the Reject is then message c0+1 and carries the mirrored identifiers; every third group of four: its Logon carries ResetSeqNumFlag=Y; numbering must then still be consecutive from the session's first message, from 1 if the session itself announces a reset), then G in {1,2,4,8,16} goroutines x M in 3..16 application sends (a fresh message object per send, or in every second pair of scenarios one object per goroutine sent M times) in bursts spread over 2.6 s (so that heartbeat and test-request timers expire in between), while the peer injects TestRequests and damaged messages (replies and rejects originate on the inbound goroutine) or stays silent; handler buffer {0,1,10}; the peer reads instantly or takes 100/300 us per message (so that bursts fill the buffer); a store decorator sleeps 0..2 ms after the counter increment, inside Save and in an outgoing handler; one GOMAXPROCS value per shard {16,1,2}; optional second session on the same counter store (in half of those the second session goes on sending for 2.6 s after the first connection was lost). Oracle on the peer-side capture (reference splitter): 34 = c0+1,c0+2,... in wire order; 49/56; 52 parses, never goes backwards along the wire, is not later than the write, lies within [call,return] of its Send; porcupine counter model over the Send operations. distinct = (role, interleaving signature of source kinds on the wire, G, M, buffer); non-trivial = at least 2 source kinds on the wire")
 	c.Assume("precondition of the statement: no handler refuses, the stores do not fail; clocks: wall clock without steps during a 3 s scenario (2 ms tolerance)")
 	n := c.Pick(24, 500) // per shard
 	var wg sync.WaitGroup
